@@ -23,6 +23,8 @@ import (
 var (
 	verifDir = "/verif"
 	repoDir  = "/repo"
+	// property being checked: callee preconditions tagged for other properties are not generated
+	currentProp = ""
 )
 
 type ClauseResult struct {
@@ -159,6 +161,7 @@ func cmdCheck(args []string) int {
 		return 2
 	}
 	prop := args[0]
+	currentProp = prop
 	fs.Parse(args[1:])
 	if t := os.Getenv("VERIF_TIER"); t != "" && !flagSet(fs, "tier") {
 		*tier = t
@@ -730,6 +733,14 @@ func writeReplay(prop, clause string, cr *ClauseResult, v *Verifier) (string, bo
 							for n, val := range subst {
 								text = strings.ReplaceAll(text, "{{"+n+"}}", val)
 							}
+							if strings.HasSuffix(hdr[1], ".sh") {
+								gen := filepath.Join(dir, unsafeName.ReplaceAllString(clause, "_")+"_replay.sh")
+								os.WriteFile(gen, []byte(text), 0o755)
+								rep, out := runWitness(&Witness{Kind: "cmd", Cmd: "bash " + gen})
+								reproduced = rep
+								rec["replay"] = map[string]any{"kind": "ddp-program", "source": gen, "output": out, "cmd": "bash " + gen}
+								goto done
+							}
 							gen := filepath.Join(dir, unsafeName.ReplaceAllString(clause, "_")+"_replay_test.go")
 							os.WriteFile(gen, []byte(text), 0o644)
 							w := &Witness{Kind: "go-test", Pkg: hdr[0], File: gen, Run: hdr[2]}
@@ -744,6 +755,7 @@ func writeReplay(prop, clause string, cr *ClauseResult, v *Verifier) (string, bo
 			}
 		}
 	}
+done:
 	rec["reproduced"] = reproduced
 	data, _ := json.MarshalIndent(rec, "", " ")
 	os.WriteFile(file, append(data, '\n'), 0o644)
